@@ -8,7 +8,8 @@ from core import run_models
 
 RULE = ("X-rw-dict / X-rw-par / X-rw-kernel: generated event sequences (1..40 events, dense small alphabets; "
         "classes forced in every batch: repeated cues/outcomes, cues and outcomes first seen in the last third, "
-        "outcome-less events, one event with >1024 cues and one with >1024 outcomes), beta1 != beta2, lambda != 1, "
+        "outcome-less events, one event with >1024 cues and one with >1024 outcomes, sequences of 300..530 events in one "
+        "temporary file with labels that occur only among the first 20 events), beta1 != beta2, lambda != 1, "
         "remove_duplicates in {None, True, False}; learners dict_ndl (scalar / per-cue alpha; list, generator, file), "
         "ndl threading, ndl openmp and both kernel entry points on harness-written chunks. The exact rational "
         "result of the Coq model (dict model = RWSpec.learn by C01_dict) is compared with Fraction(float) of every "
@@ -105,6 +106,26 @@ def gen_cases(rng, n_dict, n_par, thorough):
               "select": sel, "big": True}
         if learner == "dict_ndl":
             cs.update({"as_file": False, "as_generator": False, "make_data_array": False})
+        cases.append(cs)
+    # long sequences in ONE temporary file (> 256 events) with labels that occur only at the very beginning: whatever
+    # per-event bookkeeping a kernel keeps must not wrap around or go stale over hundreds of events
+    for k, learner in enumerate(["ndl:threading", "ndl:openmp", "dict_ndl"] if not thorough else
+                                ["ndl:threading", "ndl:openmp", "dict_ndl", "ndl:openmp", "ndl:threading"]):
+        n = rng.choice([300, 320]) if k < 3 else 530
+        es = []
+        for i in range(n):
+            cs_ = rng.sample(["c0", "c1", "c2", "c3"], rng.randint(1, 3))
+            os_ = rng.sample(["o0", "o1", "o2", "o3"], rng.randint(1, 2))
+            if i < 20:
+                os_.append(rng.choice(["early0", "early1"]))      # never again afterwards
+                if i % 3 == 0:
+                    cs_.append("earlycue")
+            es.append([cs_, os_])
+        p = {"alpha": Fraction(1, 8), "beta1": Fraction(1, 4), "beta2": Fraction(1, 8), "lam": Fraction(1)}
+        cs = {"learner": learner, "es": es, "pol": 0, "p": p, "n_jobs": 2, "n_outcomes_per_job": rng.choice([2, 10]),
+              "long": True}
+        if learner == "dict_ndl":
+            cs.update({"as_file": k % 2 == 0, "as_generator": False, "make_data_array": False})
         cases.append(cs)
     return cases
 
